@@ -123,6 +123,7 @@ def build(thorough):
             for g in ('head', 'params'):
                 obs.append(Ob(f'model_regen[edit={en},vary={g}]', 'C03_model.py', 'model_regen', max(T, 240),
                               env=dict(VH_EDIT=ed, VH_GROUP=g)))
+    obs.append(Ob('finding_abbrev_record_rewritten', 'C03_model.py', 'abbrev_regen', max(T, 240), env={}))
     obs.append(Ob('append_statement_at_end', 'C03_model.py', 'append_statement_at_end', max(T, 240), env={}))
     obs.append(Ob('append_statement_at_end__twin', 'C03_model.py', 'append_statement_at_end__twin', 150, kind='twin', env={}))
     obs.append(Ob('model_regen__twin', 'C03_model.py', 'model_regen__twin', 150, kind='twin',
